@@ -14,11 +14,11 @@ from props import misc_c42 as cc
 
 INVS = ["TypeOK", "EveryRaiseSeenByHandler", "SwallowedIffTrue", "PropagatesIffFalse", "PeriodicTicks",
         "PeriodicStopsAfterRaise", "NotEarly", "RunClocksSorted", "RunOnce", "Fifo", "DueOrder", "StatePassed",
-        "TransparentWhenQuiet", "DriveComplete"]
+        "TransparentWhenQuiet", "DriveComplete", "ReturnedHandleCancels"]
 
 # bound profiles are defined in CatchSched.tla (AllProfiles); one exhaustive TLC run enumerates a whole set
-QUICK = {"q_trees", "q_periodic", "q_mixed", "q_cancel", "q_zero"}
-THOROUGH = {"q_trees", "q_periodic", "q_mixed", "q_cancel", "q_zero", "t_trees", "t_forest", "t_periodic", "t_mixed"}
+QUICK = {"q_trees", "q_periodic", "q_mixed", "q_cancel", "q_zero", "q_ret"}
+THOROUGH = {"q_trees", "q_periodic", "q_mixed", "q_cancel", "q_zero", "q_ret", "t_ret", "t_trees", "t_forest", "t_periodic", "t_mixed"}
 
 
 def _tlc(job):
@@ -28,6 +28,13 @@ def _tlc(job):
         return label, tlc.run("CatchSched", cfg, workers=1, timeout=1500, simulate=f"num={sim}", depth=80, seed=seed,
                               xmx="2g", allow_violation=False)
     return label, tlc.run("CatchSched", cfg, workers=1, timeout=3000, xmx="3g", allow_violation=False)
+
+
+def _ret_cancel(scn):
+    """some action returned a child's handle and its own handle is disposed by a cancel command"""
+    cmds = [c for b in scn["body"] for inv in b for c in inv]
+    returners = {i + 1 for i, b in enumerate(scn["body"]) for inv in b for c in inv if c["c"] == "ret"}
+    return any(c["c"] == "cancel" and c["a"] in returners for c in cmds)
 
 
 def _variants(scn, tier):
@@ -99,6 +106,7 @@ def run(tier: str) -> int:
         "zero_or_negative_relative_due_with_declined_raise": sum(1 for g in groups if any(
             c["c"] == "sched_rel" and c["a"] <= 0 for cs in [g[0]["top"]] + [inv for b in g[0]["body"] for inv in b] for c in cs)
             and any(d["esc"] for d in g[1][0]["drives"])),
+        "returned_handle_disposed_via_outer": sum(1 for g in groups if _ret_cancel(g[0])),
         "periodic_cancelled": sum(1 for g in groups if "per" in g[0]["kind"] and any(
             c["c"] == "cancel" and g[0]["kind"][c["a"] - 1] == "per" for b in g[0]["body"] for inv in b for c in inv)),
     }
